@@ -10,7 +10,7 @@ from harness.engine import tlc as T
 from harness.engine.core import chunks
 
 SPEC = os.path.join(T.SPECS, "ProgressBar")
-ACTIONS = ["HStart", "HAdvance", "HSet", "HDisplay", "HClear", "HFinish"]
+OPS = ["start", "advance", "set", "display", "clear", "finish"]
 TICKS_PER_S = 1024.0
 BASE = 1 << 20  # the virtual clock starts 1024 s after time 0 (the bar's initial _last_write_time)
 CUSTOM = {"msg": "%message% %current%/%max% [%bar%] %percent:3s%%", "two": "%current%/%max% [%bar%]\n%message%"}
@@ -262,7 +262,7 @@ def random_case(rng, maxlen=60):
     max0 = rng.choice([0, 1, 3, 10, 50, 200])
     cfg = {"mode": mode, "bw": rng.choice([1, 2, 4, 10, 28, 40, rng.randint(1, 40)]), "mingap": rng.choice([0, 0, 103, 103, 128, 512]),
            "maxgap": rng.choice([1024, 1024, 1024, 2048]), "fmt": fmt, "w": 200,
-           "pre": [list(rng.choice(["##", "# #"])) for _ in range(rng.choice([0, 1, 1, 2]))], "max0": max0}
+           "pre": [] if fmt == "two" else [list(rng.choice(["##", "# #"])) for _ in range(rng.choice([0, 1, 1, 2]))], "max0": max0}
     case = {"cfg": cfg, "ops": [], "msg0": rng.choice(MESSAGES),
             "via": rng.choice(["output", "output", "io"]) if mode != "plain" else rng.choice(["output", "output", "io", "section"])}
     if mode in ("section", "quiet"):
@@ -323,7 +323,8 @@ def run(ctx):
         "percentage = floor(100 * step / max); frames of a maximum-less bar carry neither maximum nor percentage",
         "only the bar writes to the stream while it is in use; very_verbose/debug formats are not combined with start(0)",
     ]
-    for cfg, name in ([("MC_ProgressBar_quick.cfg", "state-space all modes")] if quick else
+    for cfg, name in ([("MC_ProgressBar_quick.cfg", "state-space all modes"), ("MC_ProgressBar_custom_quick.cfg", "custom formats")]
+                      if quick else
                       [("MC_ProgressBar_thorough.cfg", "state-space all modes"), ("MC_ProgressBar_custom.cfg", "custom formats"),
                        ("MC_ProgressBar_deep.cfg", "deep, throttle")]):
         ctx.model(SPEC, "MC_ProgressBar", cfg, name=name, workers=8)
@@ -332,6 +333,7 @@ def run(ctx):
     traces, cases = [], []
     seen = set()
     mid = []
+    opseen = {}
 
     def replay_emitted(r):
         for line in r.lines:
@@ -343,6 +345,8 @@ def run(ctx):
                 continue
             seen.add(key)
             case = case_of_behaviour(b)
+            for op in case["ops"]:
+                opseen[op["op"]] = opseen.get(op["op"], 0) + 1
             case["via"] = "io" if len(seen) % 3 == 0 and case["cfg"]["mode"] in ("ansi", "plain") else "output"
             tr = run_case(case)
             check_known(tr, case["cfg"])
@@ -356,12 +360,14 @@ def run(ctx):
                 mid[:] = [case]
         r.lines = []
 
-    for cfg in (["MC_ProgressBar_emit_quick.cfg"] if quick else ["MC_ProgressBar_emit_thorough.cfg", "MC_ProgressBar_emit_custom.cfg"]):
-        r = ctx.model(SPEC, "MC_ProgressBar", cfg, name="behaviours (state cover) " + cfg, workers=8, coverage=True)
-        idle = [a for a in ACTIONS if r.coverage.get(a, (0, 0))[1] == 0]
-        if idle:
-            raise T.MachineryError("actions never taken in the model run: %s" % idle)
+    for cfg in (["MC_ProgressBar_emit_quick.cfg", "MC_ProgressBar_emit_custom_quick.cfg"] if quick
+                else ["MC_ProgressBar_emit_thorough.cfg", "MC_ProgressBar_emit_custom.cfg"]):
+        r = ctx.model(SPEC, "MC_ProgressBar", cfg, name="behaviours (state cover) " + cfg, workers=8)
+        opseen.clear()
         replay_emitted(r)
+        idle = [a for a in OPS + (["msg"] if "custom" in cfg else []) if not opseen.get(a)]
+        if idle:  # vacuity: every kind of call occurs in the behaviours that were replayed (-coverage is too slow here)
+            raise T.MachineryError("calls never taken in the behaviours of %s: %s" % (cfg, idle))
     ncover = len(seen)
     r = ctx.model(SPEC, "MC_ProgressBar", "MC_ProgressBar_sim.cfg", name="simulate", simulate="num=%d" % (100 if quick else 1000),
                   depth=32, workers=1, seed=ctx.seed % 100000)
